@@ -3,6 +3,7 @@ import ZapVerif.Proofs.BwsConc
 import ZapVerif.Proofs.BwsConcBytes
 import ZapVerif.Model.BwsSkel
 import ZapVerif.Gen.BwsFacts
+import ZapVerif.Proofs.TransLocked
 /-! # C12 — BufferedWriteSyncer delivers every byte once, in order, in whole writes
 
 Part 1 (this section): one `BufferedWriteSyncer{WS: sink, Size: size}` driven by an arbitrary history of
@@ -825,5 +826,104 @@ example : ((runActs { n := 3 } (init (mk 4 [] [])) (raceA.take 16)).bind fun s =
     some (.retT, true, some none) := by decide
 
 end ConcBytes
+
+end ZapVerif.C12
+
+/-! ## `BufferedWriteSyncer.Write/Sync` ARE the source (table `Gen/TransLocked.lean`)
+
+The bufio.Writer is a value with parameters `avail`, `buffered`, `flush`, `bwrite` (Model/Bws.lean instantiates them with
+`St.avail`, `buf.length`, `flush`, `bufioWrite`).  For every writer, every chunk and every outcome the interpreted
+functions: take the mutex first and release it LAST on every path (`defer s.mu.Unlock()`), initialise once, flush
+first exactly when the chunk does not fit and something is buffered — the rule behind `whole_writes` — return
+`(0, err)` without writing when that flush fails, and otherwise do one `bufio.Write`; `Sync` flushes (if initialised),
+then syncs the sink, and returns both errors.  `bws_write_shape_is_model` shows that `Bws.write` has this shape. -/
+namespace ZapVerif.C12
+set_option linter.unusedSimpArgs false
+open ZapVerif ZapVerif.GoMini ZapVerif.TransLocked ZapVerif.Gen.TransLocked
+
+def evLock (mu : Val) : Val := .list [TransLocked.nm "Mutex.Lock", mu]
+def evUnlock (mu : Val) : Val := .list [TransLocked.nm "Mutex.Unlock", mu]
+def evFlush (w : Val) : Val := .list [TransLocked.nm "bufio.Flush", w]
+def evBWrite (w : Val) (bs : Bytes) : Val := .list [TransLocked.nm "bufio.Write", w, .bytes bs]
+def evWSync (ws : Val) : Val := .list [TransLocked.nm "WriteSyncer.Sync", ws]
+
+/-- result, final writer and recorded calls of `BufferedWriteSyncer.Write` on an initialised writer `w0` -/
+def bwsWriteSpec (P : Par) (mu w0 : Val) (bs : Bytes) : (Val × Nat × List Val) × List Val :=
+  (writeShape (fun e : List Val => !e.isEmpty) P.avail P.buffered P.flush P.bwrite w0 bs,
+   [evLock mu] ++
+   (if (bs.length : Int) > P.avail w0 ∧ P.buffered w0 > 0 then
+      (if (P.flush w0).2 ≠ [] then [evFlush w0] else [evFlush w0, evBWrite (P.flush w0).1 bs])
+    else [evBWrite w0 bs]) ++ [evUnlock mu])
+
+theorem BufferedWriteSyncer_Write_matches_source (P : Par) (mu : Val) (init : Bool) (w ws : Val) (size : Int) (bs : Bytes)
+    (ev : List Val) (fuel : Nat) :
+    run (X P) (fuel + 1) "BufferedWriteSyncer_Write" [.bytes bs] (bwFld mu init w ws size ev) =
+      .done [.int (bwsWriteSpec P mu (if init then w else P.init w ws size) bs).1.2.1,
+             .list (bwsWriteSpec P mu (if init then w else P.init w ws size) bs).1.2.2]
+        (bwFld mu true (bwsWriteSpec P mu (if init then w else P.init w ws size) bs).1.1 ws size
+          (ev ++ (bwsWriteSpec P mu (if init then w else P.init w ws size) bs).2)) := by
+  refine run_of_fin (X P) _ _ Gen.TransLocked.BufferedWriteSyncer_Write [.bytes bs] _ _ _ rfl rfl ?_
+  show (exec (X P) (fuel + 1) BufferedWriteSyncer_Write_body ⟨[("p0", .bytes bs)], _⟩).fin = _
+  rw [exec_succ]
+  have hpos : ∀ k : Nat, ¬ ((k : Int) + 1 = 0) := by intro k; omega
+  cases init
+  · by_cases hpre : (bs.length : Int) > P.avail (P.init w ws size) ∧ P.buffered (P.init w ws size) > 0
+    · cases hf : (P.flush (P.init w ws size)).2 with
+      | nil =>
+        simp [BufferedWriteSyncer_Write_body, bwsWriteSpec, writeShape, hpre, hpre.1, hpre.2, hf, evLock, evUnlock, evFlush,
+          evBWrite, nm_lock, nm_unlock, nm_flush, nm_bwrite, hpos, List.append_assoc]
+      | cons e r =>
+        simp [BufferedWriteSyncer_Write_body, bwsWriteSpec, writeShape, hpre, hpre.1, hpre.2, hf, evLock, evUnlock, evFlush,
+          evBWrite, nm_lock, nm_unlock, nm_flush, nm_bwrite, hpos, List.append_assoc]
+    · have hpre' : ¬ (P.avail (P.init w ws size) < bs.length ∧ 0 < P.buffered (P.init w ws size)) := hpre
+      by_cases h1 : P.avail (P.init w ws size) < bs.length
+      · have h2 : ¬ 0 < P.buffered (P.init w ws size) := fun h => hpre' ⟨h1, h⟩
+        simp [BufferedWriteSyncer_Write_body, bwsWriteSpec, writeShape, hpre, h1, h2, evLock, evUnlock,
+          evBWrite, nm_lock, nm_unlock, nm_bwrite, List.append_assoc]
+      · simp [BufferedWriteSyncer_Write_body, bwsWriteSpec, writeShape, hpre, h1, evLock, evUnlock,
+          evBWrite, nm_lock, nm_unlock, nm_bwrite, List.append_assoc]
+  · by_cases hpre : (bs.length : Int) > P.avail w ∧ P.buffered w > 0
+    · cases hf : (P.flush w).2 with
+      | nil =>
+        simp [BufferedWriteSyncer_Write_body, bwsWriteSpec, writeShape, hpre, hpre.1, hpre.2, hf, evLock, evUnlock, evFlush,
+          evBWrite, nm_lock, nm_unlock, nm_flush, nm_bwrite, hpos, List.append_assoc]
+      | cons e r =>
+        simp [BufferedWriteSyncer_Write_body, bwsWriteSpec, writeShape, hpre, hpre.1, hpre.2, hf, evLock, evUnlock, evFlush,
+          evBWrite, nm_lock, nm_unlock, nm_flush, nm_bwrite, hpos, List.append_assoc]
+    · have hpre' : ¬ (P.avail w < bs.length ∧ 0 < P.buffered w) := hpre
+      by_cases h1 : P.avail w < bs.length
+      · have h2 : ¬ 0 < P.buffered w := fun h => hpre' ⟨h1, h⟩
+        simp [BufferedWriteSyncer_Write_body, bwsWriteSpec, writeShape, hpre, h1, h2, evLock, evUnlock,
+          evBWrite, nm_lock, nm_unlock, nm_bwrite, List.append_assoc]
+      · simp [BufferedWriteSyncer_Write_body, bwsWriteSpec, writeShape, hpre, h1, evLock, evUnlock,
+          evBWrite, nm_lock, nm_unlock, nm_bwrite, List.append_assoc]
+
+/-- the recorded calls and the result of `BufferedWriteSyncer.Sync`: lock, flush (only when initialised), sync the sink,
+    unlock; the result is `multierr.Append(flushErr, syncErr)` -/
+theorem BufferedWriteSyncer_Sync_matches_source (P : Par) (mu : Val) (init : Bool) (w : Val) (n : Int) (werrs serrs : List Val)
+    (size : Int) (ev : List Val) (fuel : Nat) :
+    run (X P) (fuel + 1) "BufferedWriteSyncer_Sync" [] (bwFld mu init w (sinkV n werrs serrs) size ev) =
+      .done [.list ((if init then (P.flush w).2 else []) ++ serrs)]
+        (bwFld mu init (if init then (P.flush w).1 else w) (sinkV n werrs serrs) size
+          (ev ++ [evLock mu] ++ (if init then [evFlush w] else []) ++ [evWSync (sinkV n werrs serrs), evUnlock mu])) := by
+  refine run_of_fin (X P) _ _ Gen.TransLocked.BufferedWriteSyncer_Sync [] _ _ _ rfl rfl ?_
+  show (exec (X P) (fuel + 1) BufferedWriteSyncer_Sync_body ⟨[], _⟩).fin = _
+  rw [exec_succ]
+  cases init <;>
+  simp [BufferedWriteSyncer_Sync_body, evLock, evUnlock, evFlush, evWSync, nm_lock, nm_unlock, nm_flush, nm_wsync,
+    List.append_assoc]
+
+/-- `Bws.write` (the model `whole_writes` is proved about) has exactly the interpreted shape, with `St.avail`,
+    `buf.length`, `Bws.flush` and `Bws.bufioWrite` as the bufio.Writer and `init := true` as `initialize()` -/
+theorem bws_write_shape_is_model (s : Bws.St) (bs : Bytes) :
+    Bws.write s bs =
+      writeShape (fun e : Option Bws.EK => e.isSome) (fun t : Bws.St => (t.avail : Int)) (fun t => (t.buf.length : Int))
+        Bws.flush Bws.bufioWrite { s with init := true } bs := by
+  unfold Bws.write writeShape
+  simp only [gt_iff_lt, Int.ofNat_lt, Int.natCast_pos]
+  split
+  · cases h : Bws.flush { s with init := true } with
+    | mk s1 e => cases e <;> simp
+  · rfl
 
 end ZapVerif.C12
